@@ -288,7 +288,7 @@ Qed.
 Theorem sticky_refuted :
   exists w1 w2 w3, add 0 (-1) = (w1, AddPanic) /\ add w1 1 = (w2, AddPanic) /\ w2 = 0
                    /\ add w2 0 = (w3, AddRet 0 0) /\ w3 = 0 /\ send_begin w3 = (0, SbZero).
-Proof. do 3 eexists. vm_compute. repeat split. Qed.
+Proof. exists (mkword (two32 - 2) (two32 - 1)), 0, 0. vm_compute. repeat split. Qed.
 
 (* Two further ways a panicking Add is not sticky (both benign, both sequential facts about the same code):
    a range panic does not touch the word at all; *)
@@ -455,7 +455,7 @@ Example ex_99a_m100 : snd (add (mkword 99 (maxi + 99)) (-100)) = AddPanic.      
 Example ex_mm_mmax : add (mkword maxi maxi) (- maxi) = (0, AddRet 0 0).          Proof. vm_compute. reflexivity. Qed.
 Example ex_mm_mmax1 : add (mkword maxi maxi) (- maxi - 1) = (mkword maxi maxi, AddPanic).  Proof. vm_compute. reflexivity. Qed.
 Example ex_uu_0 : snd (add (mkword MaxU32 MaxU32) 0) = AddPanic.                 Proof. vm_compute. reflexivity. Qed.
-Example ex_uu_1 : add (mkword MaxU32 MaxU32) 1 = (0, AddPanic).                  Proof. vm_compute. reflexivity. Qed.
+Example ex_uu_1 : add (mkword MaxU32 MaxU32) 1 = (mkword 1 0, AddPanic). (* lo carries into hi *)                 Proof. vm_compute. reflexivity. Qed.
 Example ex_m1_armed_m1 : snd (add (mkword (maxi + 1) (2 * maxi + 1)) (-1)) = AddPanic.  Proof. vm_compute. reflexivity. Qed.
 Example ex_minint : add (mkword 5 5) (- 2 ^ 63) = (mkword 5 5, AddPanic).        Proof. vm_compute. reflexivity. Qed.
 Example ex_send_begin_1 : send_begin (mkword 1 1) = (mkword 1 (1 + maxi), SbArmed 1).   Proof. vm_compute. reflexivity. Qed.
